@@ -284,8 +284,14 @@ class Link(object):
         return not any(th.is_alive() for th in self.threads)
 
 
-def with_limit(fn):
-    """run fn() in a thread; Inconclusive if it does not finish within LIMIT * 2"""
+class Stalled(Exception):
+    """the operation was still unfinished after `budget` link turns (PDU exchanges, idle ones are SYMM) on a
+    live link: decided in link turns, not in seconds, so machine load cannot cause it"""
+
+
+def with_limit(fn, pipe=None, budget=None):
+    """run fn() in a thread; Stalled if the link did more than `budget` turns meanwhile; Inconclusive if it
+    does not finish within LIMIT * 2 real seconds"""
     box = {}
 
     def body():
@@ -296,7 +302,16 @@ def with_limit(fn):
     th = threading.Thread(target=body)
     th.daemon = True
     th.start()
-    th.join(2 * LIMIT)
+    if pipe is not None and budget is not None:
+        start, t0 = len(pipe.frames), _time.time()
+        while th.is_alive() and _time.time() - t0 < 2 * LIMIT:
+            th.join(0.005)
+            if len(pipe.frames) - start > budget:
+                break
+        if th.is_alive() and len(pipe.frames) - start > budget:
+            raise Stalled('unfinished after %d link turns' % (len(pipe.frames) - start))
+    else:
+        th.join(2 * LIMIT)
     if th.is_alive():
         if ON_STUCK:
             ON_STUCK()
